@@ -49,7 +49,7 @@ OPS = tuple(p + o for p in ("sm_", "smr_") for o in BASE_OPS)
 LEAN = ["Ymq.Props.C14Small"]
 AUDIT = "Ymq.Audit.C14Small"
 # >>>>>>>>>> PLACEHOLDER: space separated names of the theorems of namespace Ymq.C14Small (to be filled in) <<<<<<<<<<
-THEOREM_NAMES = ("rank_spec rank_profile_independent pseudoinverse_spec pseudoinverse_no_panic pseudoinverse_sound submatrix_spec pipeline_spec rank_reverse_spec inverse_spec inverse_some_iff inverse_profile_independent transpose_spec mask_spec reverse_spec symmetric_spec identity_spec genblock_never_ends genblock_accepts mul_aab_opt_spec gram_rank_le_cube genblock_never_ends_hang_rule genblock_never_ends_low_rank genblock_never_ends_witness lanczos_init_well_formed lanczos_step_no_panic_release lanczos_step_checked_orthogonal rank_not_greedy pseudoinverse_unmasked_counterwitness pipeline_nonsymmetric_counterwitness")
+THEOREM_NAMES = ("rank_spec rank_profile_independent pseudoinverse_spec pseudoinverse_no_panic pseudoinverse_sound submatrix_spec pipeline_spec rank_reverse_spec inverse_spec inverse_some_iff inverse_profile_independent transpose_spec mask_spec reverse_spec symmetric_spec identity_spec genblock_never_ends genblock_accepts mul_aab_opt_spec gram_rank_le_cube genblock_never_ends_hang_rule genblock_never_ends_low_rank genblock_never_ends_witness lanczos_init_well_formed lanczos_step_no_panic_release lanczos_step_checked_orthogonal lanczos_step_no_panic_checked lanczos_invariant rank_not_greedy pseudoinverse_unmasked_counterwitness pipeline_nonsymmetric_counterwitness")
 THEOREMS = ["Ymq.C14Small." + t for t in THEOREM_NAMES.split()]
 
 N = 64
@@ -1243,7 +1243,8 @@ UNMODELLED = [
     "the random generator of genblock (rand::thread_rng, try_fill) is an input stream of the model: its distribution, hence the probability-1 "
     "termination of genblock when rank((B^T B)^3) >= 64 and the existence of an admissible block in that case, are outside the model (the "
     "harness stops the loop after 8 draws); the number of iterations of the main loop and the verbose messages are not specified; that the "
-    "A-orthogonality assertions of the checked profile hold on every reachable state (the induction of block Lanczos) is sampled, not proved",
+    "A-orthogonality assertions of the checked profile hold on every reachable state is proved as an inductive step only (the three-term property "
+    "of the purged blocks and the base case are hypotheses); the loop-level statement is sampled by K and the oracle",
     "the rotation trick of muladd (&SmallMat * &SmallMat, &Block * &SmallMat) is compared with the defining sum by sm_mul only (not proved)",
     "behaviour of pseudoinverse / submatrix / the call site outside their documented domain (input not null outside S x S, not symmetric) has "
     "no specification: the oracle accepts any answer there, K still compares it with the model in both profiles",
@@ -1280,9 +1281,15 @@ CLAIM = ("Lean theorems, for EVERY size n (the code has n = 64; n <= 256 where t
          "kernel_lanczos reaches no panic site of the release profile on a well-formed state and leaves a well-formed state "
          "(lanczos_step_no_panic_release, through the symmetry of the Gram matrix and Montgomery's lemma), and a returning iteration of the "
          "checked profile has asserted W^T A Y = 0 for the new block and the rank selection of the new pseudo-inverse "
-         "(lanczos_step_checked_orthogonal). NOT proved: the converse of the hang rule (an admissible block exists when rank((B^T B)^3) >= 64: "
-         "classification of symmetric bilinear forms over GF(2)); that the A-orthogonality assertions of the checked profile never fail "
-         "(sampled by K on every iteration of real runs and checked pairwise by the oracle).")
+         "(lanczos_step_checked_orthogonal); the INDUCTIVE STEP of block Lanczos on the checked model: from a state satisfying the invariant "
+         "LInv (every selected block of the history pairwise A-orthogonal, every kept W_j masked and invgs[j] the two-sided inverse of "
+         "W_j^T A W_j on its mask, Y A-orthogonal to every selected block) and given the three-term property of the iteration, one "
+         "iteration of the checked profile reaches no panic site - all debug_assert! on A-orthogonality and on the rank hold - and the "
+         "invariant holds again (lanczos_step_no_panic_checked, lanczos_invariant; matrix forms of Block::muladd, block products, masking; "
+         "left inverse = right inverse on the S x S block). NOT proved: the converse of the hang rule (an admissible block exists when "
+         "rank((B^T B)^3) >= 64: classification of symmetric bilinear forms over GF(2)); for the loop-level statement the three-term "
+         "property as a consequence of the invariant (Montgomery's argument for the blocks no longer projected) and the base case of the "
+         "invariant for the initial state (sampled by K on every iteration of real runs and checked pairwise by the oracle).")
 LEVEL_NOTE = ("The theorems are about the model; the K stream ties it to the code in both profiles (sm_* against the checked build, smr_* "
               "against the release build, panics included); genblock is tied through the recorded stream of random blocks. The Python oracle "
               "judges every implementation answer inside the documented domains by its own elimination.")
